@@ -10,7 +10,7 @@ from ..decide import formula, single_bool_defs, truth_table
 from ..filetypestate import COMPILER, NOTE, run_file_typestate
 from ..paths import Path, enum_paths, first_index
 from ..pymodel import FuncInfo, PyModel, walk_no_nested
-from ..util import base_name, find_calls, names_loaded
+from ..util import base_name, find_calls, kwarg, names_loaded
 
 API = "zorg.service.compiler._api.walk_zorg_page"
 FC = "zorg.service.compiler._file_compiler"
@@ -21,12 +21,31 @@ FILE_A = "src/zorg/service/compiler/_api.py"
 
 # Reviewed sites: (function, normalised construct) -> why it cannot raise.  One line of reason each.
 REVIEWED = {
-    ("enterTodo_prefix", "ctx.getText()[0]"): "todo_prefix always has exactly one token child (grammar: min_children == 1), so its text is non-empty",
-    ("enterInline_prop", "words[0]"): "words = text.split(' ') with an explicit separator is never empty",
-    ("enterInline_prop", "words.pop(0)"): "words = text.split(' ') with an explicit separator is never empty",
-    ("enterInline_prop", "key, value = words[0][1:-1].split('::', maxsplit=1)"): "the inline_prop rule contains the tokens COLON COLON, so '::' occurs in its text and maxsplit=1 yields exactly two parts",
-    ("enterId", "zid.split('#')[0]"): "str.split with a separator always has an element 0",
+    "words[0]": "words = text.split(' ') with an explicit separator is never empty",
+    "words.pop(0)": "words = text.split(' ') with an explicit separator is never empty",
+    "key, value = words[0][1:-1].split('::', maxsplit=1)": "the inline_prop rule contains the tokens COLON COLON, so '::' occurs in its text and maxsplit=1 yields exactly two parts",
 }
+
+
+def _reviewed(fi: FuncInfo, construct: str):
+    """Reasons that do not depend on which function the construct lives in (a refactor may move it)."""
+    if construct in ("words[0]", "words.pop(0)") and fi.name != "enterInline_prop" and not _never_empty_def(fi.node, "words"):
+        return None
+    return REVIEWED.get(construct)
+
+
+def _ctx_rule_of(fi: FuncInfo, e: ast.expr):
+    """Grammar rule of an expression denoting a parse-tree context: a parameter annotated `ZorgFileParser.<Rule>Context`, or `<ctx>.<rule>()`."""
+    if isinstance(e, ast.Name):
+        for a in fi.params():
+            if a.arg == e.id and a.annotation is not None:
+                t = ast.unparse(a.annotation)
+                if t.endswith("Context") and "." in t:
+                    r = t.rsplit(".", 1)[-1][: -len("Context")]
+                    return r[0].lower() + r[1:]
+    if isinstance(e, ast.Call) and isinstance(e.func, ast.Attribute) and not e.args:
+        return e.func.attr.rstrip("_")
+    return None
 
 
 def _slice(model: PyModel) -> list[FuncInfo]:
@@ -152,8 +171,13 @@ def local_obligations(run: Run, fi: FuncInfo) -> int:
         n_ob += 1
         key = (fi.name, " ".join(ast.unparse(n).split()))
         if sid in failed:
-            if key in REVIEWED:
-                run.proved("C08.R1", f"{fi.name}: `{key[1]}` (reviewed: {REVIEWED[key]})")
+            if _reviewed(fi, key[1]):
+                run.proved("C08.R1", f"{fi.name}: `{key[1]}` (reviewed: {_reviewed(fi, key[1])})")
+                continue
+            mod_def = fi.module.assigns.get(nm)
+            if k == "index" and isinstance(mod_def, (ast.Tuple, ast.List)) and not any(isinstance(x, ast.Starred) for x in mod_def.elts) and (idx < len(mod_def.elts) if idx >= 0 else -idx <= len(mod_def.elts)) \
+                    and nm not in {t.id for t in ast.walk(fi.node) if isinstance(t, ast.Name) and isinstance(t.ctx, ast.Store)}:
+                run.proved("C08.R1", f"{fi.name}: `{key[1]}` indexes the module-level constant `{nm}` within its length")
                 continue
             run.refuted("C08.R1", fi.name, n, f"`{ast.unparse(n)}` can raise IndexError: on some path `{nm}` is not known to have {'an element' if k == 'pop' or idx in (0, -1) else f'{idx + 1} elements'} "
                         "(no dominating emptiness/length test) -- compiling a page with such a line dies with an internal exception", file=fi.file, node=n,
@@ -188,6 +212,9 @@ def other_sites(run: Run, fi: FuncInfo, g) -> int:
             v = n.value
             if isinstance(v, ast.Call) and isinstance(v.func, ast.Attribute) and v.func.attr == "split" and v.args and n.slice.value == 0:
                 why = "split with a separator has an element 0"
+            elif isinstance(v, ast.Call) and isinstance(v.func, ast.Attribute) and v.func.attr == "getText" and n.slice.value == 0 and _ctx_rule_of(fi, v.func.value) in g.rule_index \
+                    and not g.nullable(_ctx_rule_of(fi, v.func.value)):
+                why = f"the text of a `{_ctx_rule_of(fi, v.func.value)}` context is never empty (the rule cannot derive the empty string)"
             elif isinstance(v, ast.Attribute) and v.attr == "children":
                 why = "ctx.children[k]: decided by the typestate walk (k < min_children on error-free trees; recovered trees are fenced by walk_zorg_page)"
             elif isinstance(v, ast.Subscript) and isinstance(v.slice, ast.Slice):
@@ -205,8 +232,8 @@ def other_sites(run: Run, fi: FuncInfo, g) -> int:
         key = (fi.name, " ".join(ast.unparse(cons).split()))
         if why:
             run.proved("C08.R1", f"{fi.name}: `{key[1][:60]}` ({why})")
-        elif key in REVIEWED:
-            run.proved("C08.R1", f"{fi.name}: `{key[1][:60]}` (reviewed: {REVIEWED[key]})")
+        elif _reviewed(fi, key[1]):
+            run.proved("C08.R1", f"{fi.name}: `{key[1][:60]}` (reviewed: {_reviewed(fi, key[1])})")
         else:
             run.refuted("C08.R1", fi.name, cons, f"`{key[1]}` can raise (IndexError / ValueError from unpacking) and nothing establishes its precondition; "
                         "it is not among the reviewed sites either", file=fi.file, node=cons)
@@ -496,6 +523,15 @@ def check(run: Run) -> None:
             all_rec = False
     run.check("C08.R5", "every syntax error reported by the parser is recorded", all_rec and k > 0, "ErrorManager.syntaxError", "a path returns without recording the error",
               "ErrorManager.syntaxError can return without appending to `errors`: some syntax errors (e.g. those at end of file) are ignored, the page is not flagged and is indexed partially", file=FILE_C, node=se.node)
+    # reading the page never fails on its bytes: whatever opens the file decodes tolerantly
+    readers = [c for c in ast.walk(fa_flat.node) if isinstance(c, ast.Call) and (ast.unparse(c.func).split(".")[-1] in ("FileStream", "read_text", "open") or ast.unparse(c.func) == "open")]
+    run.floor("calls that read the page in walk_zorg_page", len(readers), 1)
+    for c in readers:
+        ev = kwarg(c, "errors")
+        tolerant = isinstance(ev, ast.Constant) and ev.value in ("ignore", "replace", "backslashreplace", "surrogateescape")
+        run.check("C08.R1", "the page is decoded tolerantly (errors=ignore/replace)", tolerant, "walk_zorg_page", c,
+                  f"`{ast.unparse(c)[:80]}` decodes the page strictly: a file with bytes that are not valid in the chosen encoding (Latin-1 text, a truncated multi-byte sequence, a stray 0xFF) "
+                  "makes compile / db create / db reindex die with UnicodeDecodeError", file=FILE_A, node=c)
     reg = any(isinstance(c, ast.Call) and isinstance(c.func, ast.Attribute) and c.func.attr == "addErrorListener" for c in ast.walk(fa_flat.node))
     run.check("C08.R5", "the error manager is registered with the parser", reg, "walk_zorg_page", "addErrorListener", "the ErrorManager is not registered as an error listener", file=FILE_A, node=fa.node)
     run.units = dict(slice_functions=len(funcs), typestate=ts.stats, obligations_local=n_ob)
